@@ -612,7 +612,15 @@ Proof.
       rewrite (C01.shake0_leaf fu l1 H1), (C01.shake0_leaf fu r1 H2). cbn [bind].
       eexists. split; [reflexivity|]. cbn [gk]. rewrite Eop, H1, H2. reflexivity.
   - eexists. split; [reflexivity | exact H].
-  - cbn [shake0]. destruct (IH e H) as (e' & -> & Ge). cbn [bind]. eexists. split; [reflexivity | exact Ge].
+  - destruct (C01.is_group_dec e) as [[s0 [g0 ->]]|Hng].
+    + (* fix D14: the group a quantifier holds stays; its members are shaken *)
+      rewrite C01.shake0_match_group. cbn [gk] in H. apply andb_prop in H. destruct H as [Hs Hl].
+      destruct (mapM_good (fun x => shake0 fu x) (fun x => gk K x = true) g0) as (l' & -> & Pl' & _).
+      { intros x Hx. apply IH. exact (C01.forallb_In _ _ _ Hl Hx). }
+      cbn [bind]. eexists. split; [reflexivity|].
+      cbn [gk]. rewrite Hs. cbn [andb]. apply Forall_gk_forallb. exact Pl'.
+    + rewrite (C01.shake0_match_other fu k e Hng).
+      destruct (IH e H) as (e' & -> & Ge). cbn [bind]. eexists. split; [reflexivity | exact Ge].
   - cbn [shake0]. destruct (IH e H) as (e' & -> & Ge). cbn [bind].
     destruct e'; try (eexists; split; [reflexivity | exact Ge]).
     apply IH. exact Ge.
